@@ -180,6 +180,9 @@ def execute(case: dict) -> dict:
     ds = viafile.hold_ds(w, build(w))
     conv = W.bind(w, ds)
     rec = {"tid": case["tid"], "src": case["src"], "w": tlc_world(w), "events": []}
+    # (a case that corrects an attribute in place modifies that coordinate on purpose)
+    skip = {dc["name"] for dc in w["depths"]} if any(e["a"] == "SetPositive" for e in case["events"]) else set()
+    before = CD.snapshot(ds, skip)
     convs = {id(ds): (ds, conv)}
 
     def conv_of(d):
@@ -241,6 +244,7 @@ def execute(case: dict) -> dict:
             e["obs"] = outcome(floor)
             e.setdefault("inpolys", []); e.setdefault("inconv", "")
         rec["events"].append(e)
+    rec["input"] = {"before": before, "after": CD.snapshot(ds, skip)}
     return rec
 
 
